@@ -71,7 +71,11 @@ func collect(p *Prog) *slots {
 func mutate(r *lib.Rng, p *Prog) string {
 	s := collect(p)
 	for try := 0; try < 12; try++ {
-		switch r.Intn(13) {
+		pick := r.Intn(16)
+		if pick >= 13 {
+			pick = 4 // resource programs are rare: favour the use-after-move mutation
+		}
+		switch pick {
 		case 0: // change / add a let annotation to a related type
 			if len(s.lets) == 0 {
 				continue
@@ -160,7 +164,7 @@ func mutate(r *lib.Rng, p *Prog) string {
 			var cs [][2]int
 			for bi, b := range s.blocks {
 				for si, st := range *b {
-					if st.Op == "destroy" || (st.Op == "expr" && hasMove(st.E)) {
+					if st.Op == "destroy" || (st.Op == "expr" && hasMove(st.E)) || (st.Op == "let" && st.E.Op == "call" && hasMove(st.E)) {
 						cs = append(cs, [2]int{bi, si})
 					}
 				}
@@ -170,8 +174,13 @@ func mutate(r *lib.Rng, p *Prog) string {
 			}
 			c := lib.Pick(r, cs)
 			b := s.blocks[c[0]]
+			dup := (*b)[c[1]]
+			if mv := firstMove(dup.E); mv != nil && r.Bool() {
+				// ... or destroy the moved variable once more
+				dup = &Stmt{Op: "destroy", E: &Expr{Op: "move", X: mv.X, Typ: mv.Typ}}
+			}
 			nb := append([]*Stmt{}, (*b)[:c[1]+1]...)
-			nb = append(nb, (*b)[c[1]])
+			nb = append(nb, dup)
 			nb = append(nb, (*b)[c[1]+1:]...)
 			*b = nb
 			return "double-move"
@@ -291,6 +300,21 @@ func mutate(r *lib.Rng, p *Prog) string {
 		}
 	}
 	return ""
+}
+
+func firstMove(e *Expr) *Expr {
+	if e == nil {
+		return nil
+	}
+	if e.Op == "move" {
+		return e
+	}
+	for _, x := range append([]*Expr{e.A, e.Bx, e.C}, e.Es...) {
+		if m := firstMove(x); m != nil {
+			return m
+		}
+	}
+	return nil
 }
 
 func hasMove(e *Expr) bool {
